@@ -304,6 +304,27 @@ def run_stages(case, ses):
             qv = [vs[k] for k in q]
             res, _ = ses.oblige('%s/complete-%d' % (label, ci), hyp, [z3.ForAll(qv, z3.Not(z3.And(Bc)))],
                                 kind='stage-completable', core=False, twin=False, timeout_ms=15000)
+        # ... decided at TIGHT points: with the exact values  f = y^2/a2,  g = (y+a2)^2/a2,  h = g^2/a2  pinned (exact rationals) the
+        # rows and the cone of the stage must be satisfiable - a stage that only admits LARGER values (a wrong scale factor
+        # 1/2^L of the argument) over-estimates exp although every soundness lemma above still holds
+        for yv, av in ((Fraction(1, 2), Fraction(1)), (Fraction(-3, 4), Fraction(1, 2)), (Fraction(1, 4), Fraction(2)), (Fraction(-1), Fraction(1))):
+            gv = (yv + av) ** 2 / av
+            tight = [yv * yv / av, gv, gv * gv / av]
+            for ci, q in enumerate(cones[:3]):
+                blkrows = [r for r in rows if set(G.rows[r][0]) & set(q)]
+                Bc = G.row_cons(vs, blkrows) + G.soc_cons(vs, [q])
+                pins = [a2 == rv(av), x2 == rv(yv * two), fgh[ci] == rv(tight[ci])] + ([fgh[1] == rv(gv)] if ci == 2 else [])
+                res, _ = ses.expect_sat('%s/tight-%d y=%s a2=%s' % (label, ci, yv, av), Bc + pins, kind='stage-completable-tight',
+                                        timeout_ms=15000)
+                if res == 'unsat':
+                    allok = False
+                    data = dict(k='stages', case=case, lemma='tight', cone=bi, stage=ci)
+                    if replay(data):
+                        finding(ses, 'C18:stage:tight', '%s: stage %d of the appended block cannot take its exact value at y=%s, a2=%s: '
+                                'the approximation over-estimates exp at this degree' % (label, ci, yv, av), data, 'rsv.props.c18:replay')
+                    else:
+                        raise HarnessError('tight-point counterexample does not reproduce: %s' % label)
+                    break
         if allok:
             ses.stats.nontrivial.add(label)
 
@@ -486,6 +507,25 @@ def replay(data, verbose=False):
             if verbose:
                 print('real to_socp(): lower bound of cone head column %d is %r' % (data['head'], lb))
             return not (lb >= 0)
+        if data.get('lemma') == 'tight':
+            # concrete accuracy at this degree through the real soc_solve: min exp(x) - c*x has the closed form c - c*log(c)
+            import math
+            from rsome import ro, eco_solver
+            import rsome as rso
+            worst = 0.0
+            for c in (0.5, 2.0, 6.0):
+                with quiet():
+                    mm = ro.Model()
+                    x = mm.dvar()
+                    mm.min(rso.exp(x) - c * x)
+                    mm.st(x >= -5, x <= 5)
+                    mm.soc_solve(eco_solver, degree=case['degree'], cuts=tuple(case['cuts']), display=False)
+                    val = mm.get()
+                exact = c - c * math.log(c)
+                worst = max(worst, abs(val - exact) / (1 + abs(exact)))
+            if verbose:
+                print('soc_solve(degree=%d): worst relative error of min exp(x) - c*x against c - c*log(c): %.3g' % (case['degree'], worst))
+            return worst > 1e-3
         if 'point' not in data:
             return True
         with quiet():
